@@ -155,15 +155,16 @@ def createDir (v nParent : Nat) (name : Bytes) : Prog RC := do
     if rc ≠ rcOK then return rc
     updateBitmap v
 
-/-- `adfCreateFile(vol, nParent, name, fhdr)`: (rc, the header as left in `fhdr`) -/
-def createFile (v nParent : Nat) (name : Bytes) : Prog (RC × Blk) := do
+/-- the first half of `adfCreateFile`: link a new entry into the directory and write its header block; the third component
+    is the parent block when the call goes on (directory cache, bitmap), `none` when it returns here -/
+def createFileLink (v nParent : Nat) (name : Bytes) : Prog (RC × Blk × Option Blk) := do
   let vc ← getVolCfg v
   let (rc, parent) ← readEntryBlock v nParent
-  if rc ≠ rcOK then return (rc, zeroBlk)
-  if isDIRCACHE vc.dosType ∧ !(← hasFreeBlocks v 2) then return (rcVolFull, zeroBlk)
+  if rc ≠ rcOK then return (rc, zeroBlk, none)
+  if isDIRCACHE vc.dosType ∧ !(← hasFreeBlocks v 2) then return (rcVolFull, zeroBlk, none)
   let (ns, parent) ← createEntry v parent name
   match ns with
-  | none => return (rcError, zeroBlk)
+  | none => return (rcError, zeroBlk, none)
   | some nSect =>
     let nm := name.take 30
     let fhdr := ((zeroBlk.setByte O_nameLen nm.length).setBytes O_name nm).setW F_headerKey nSect
@@ -171,7 +172,16 @@ def createFile (v nParent : Nat) (name : Bytes) : Prog (RC × Blk) := do
                 else if parent.secType = ST_DIR then fhdr.setW F_parent (parent.w F_headerKey) else fhdr
     let fhdr := stampDates fhdr (← now)
     let (rc, fhdr) ← writeFileHdrBlock v nSect fhdr
-    if rc ≠ rcOK then return (rc, fhdr)
+    if rc ≠ rcOK then return (rc, fhdr, none)
+    return (rcOK, fhdr, some parent)
+
+/-- `adfCreateFile(vol, nParent, name, fhdr)`: (rc, the header as left in `fhdr`) -/
+def createFile (v nParent : Nat) (name : Bytes) : Prog (RC × Blk) := do
+  let vc ← getVolCfg v
+  let (rc, fhdr, cont) ← createFileLink v nParent name
+  match cont with
+  | none => return (rc, fhdr)
+  | some parent =>
     if isDIRCACHE vc.dosType then
       let rc ← addInCache v parent fhdr
       if rc ≠ rcOK then return (rc, fhdr)
